@@ -10,13 +10,37 @@ Local Open Scope N_scope.
 Definition fstate2 (i o : Z) (dp mx tm : N) : fctl :=
   {| in_count := i; out_count := o; depth := dp; max_depth := mx; ftime := tm; fsize := 0 |}.
 
+Definition gfl3 (sh : shape) (nr flt ntr tr cl : bool) : flags :=
+  {| norecord := nr; notrace := ntr; filtered := flt; written := false; disabled := false;
+     ftrace := tr; fcaller := cl; cygprof := match sh with CYG => true | PG => false end |}.
+Definition gframe3 (sh : shape) (nr flt ntr tr cl : bool) (a t r : N) (f : fctl) : frame :=
+  {| f_addr := a; f_start := t; f_end := 0; f_flags := gfl3 sh nr flt ntr tr cl; f_depth := r;
+     sv_depth := depth f; sv_max := max_depth f; sv_time := ftime f; sv_size := fsize f; f_ghost := false |}.
+Definition gf3 (sh : shape) (w flt tr cl : bool) (a t r : N) (f0 : fctl) : frame :=
+  if w then set_written (gframe3 sh false flt false tr cl a t r f0) else gframe3 sh false flt false tr cl a t r f0.
+Lemma flush_anc_gf3 sh flt tr cl a t r f0 stk :
+  flush_anc (gf3 sh false flt tr cl a t r f0 :: stk) =
+  (gf3 sh true flt tr cl a t r f0 :: fst (flush_anc stk),
+   snd (flush_anc stk) ++ [entry_rec (gframe3 sh false flt false tr cl a t r f0)]).
+Proof.
+  cbn [gf3 flush_anc gframe3 f_flags gfl3 written]. destruct (flush_anc stk) as [rest' recs].
+  unfold skip. cbn [f_flags gfl3 norecord disabled orb fst snd]. reflexivity.
+Qed.
+
+(* a frame that is never recorded, whatever its other flags *)
+Definition nrframe (fr : frame) (f0 : fctl) : Prop :=
+  f_ghost fr = false /\ norecord (f_flags fr) = true /\ written (f_flags fr) = false /\
+  sv_depth fr = depth f0 /\ sv_max fr = max_depth f0 /\ sv_time fr = ftime f0 /\ sv_size fr = fsize f0.
+Lemma nrframe_gframe3 sh fl ntr tr cl a t r f0 : nrframe (gframe3 sh true fl ntr tr cl a t r f0) f0.
+Proof. unfold nrframe. cbn. repeat split; reflexivity. Qed.
+
 Definition hitF (g : strig) : bool := match sf g with Some true => true | _ => false end.
 Definition hitN (g : strig) : bool := match sf g with Some false => true | _ => false end.
 
 Section filt2.
   Variable tg : N -> strig.
-  Variables (fm : bool) (gd thr ms : N) (sh : shape).
-  Let c := fcfg2 tg fm gd thr ms sh.
+  Variables (fm hc : bool) (gd thr ms : N) (sh : shape).
+  Let c := fcfg2 tg fm hc gd thr ms sh.
 
   Ltac open_entry Hi :=
     unfold do_enter, hooked, entry_check;
@@ -42,19 +66,19 @@ Section filt2.
                  ridx := ridx s; out := out s; warned := false |} /\ hooked c s a = false
       | CYG => do_enter c s a t =
                {| fc := fstate2 i' o' dp0 mx' tm'; enabled := true; cached := cached s;
-                  stack := gframe CYG true (hitF g) (hitN g) a 0 (ridx s) (fstate2 i 0 dp mx tm) :: stack s;
+                  stack := gframe3 CYG true (hitF g) (hitN g) (str g) (sc g) a 0 (ridx s) (fstate2 i 0 dp mx tm) :: stack s;
                   ridx := ridx s; out := out s; warned := false |} /\ hooked c s a = true
       end
     else
       do_enter c s a t =
       {| fc := fstate2 i' o' (dp0 + 1) mx' tm'; enabled := true; cached := cached s;
-         stack := gframe sh (hitN g) (hitF g) (hitN g) a t (ridx s) (fstate2 i 0 dp mx tm) :: stack s;
+         stack := gframe3 sh (hitN g) (hitF g) (hitN g) (str g) (sc g) a t (ridx s) (fstate2 i 0 dp mx tm) :: stack s;
          ridx := (if hitN g then ridx s else ridx s + 1); out := out s; warned := false |} /\ hooked c s a = true.
   Proof.
     intros Hfc Hen Hi Hi0 Hreach. cbv zeta. unfold hitF, hitN.
     open_entry Hi. rewrite Hfc, Hen.
     cbn [fstate2 in_count out_count depth max_depth ftime fsize Z.gtb Z.compare].
-    destruct (tg a) as [f dd tt]. cbn [sf sd stm] in *.
+    destruct (tg a) as [f dd tt ttr tcl]. cbn [sf sd stm str sc] in *.
     assert (E0 : match f with Some _ => false | None => fm && (i =? 0)%Z end = false).
     { destruct f; [reflexivity|]. destruct Hreach as [H|[H|H]]; [congruence|subst fm; reflexivity|].
       destruct fm; [|reflexivity]. cbn [andb]. lia. }
@@ -70,7 +94,7 @@ Section filt2.
       destruct sh; unfold entry_record, with_fc;
       cbn [fc enabled cached stack ridx out warned in_count out_count fsize f_flags norecord f_addr f_start f_depth
            t_filter t_trace t_caller t_trace_on t_trace_off orb andb noflags cygprof Z.gtb Z.compare N.ltb N.compare
-           fmode_in sym_size ftrig2 sf sd stm fcfg2 Z.add Pos.add fstate2 gframe gfl];
+           fmode_in sym_size ftrig2 sf sd stm str sc fcfg2 Z.add Pos.add fstate2 gframe3 gfl3];
       rewrite ?E1, ?E2, ?orb_false_r; try (split; reflexivity).
   Qed.
 
@@ -82,9 +106,10 @@ Section filt2.
     | PG => do_enter c s a t =
             {| fc := fc s; enabled := enabled s; cached := cached s; stack := stack s; ridx := ridx s;
                out := out s; warned := false |} /\ hooked c s a = false
-    | CYG => do_enter c s a t =
-             {| fc := fc s; enabled := enabled s; cached := cached s;
-                stack := gframe CYG true false false a 0 (ridx s) (fstate2 i o dp mx tm) :: stack s;
+    | CYG => exists fr, nrframe fr (fstate2 i o dp mx tm) /\
+                        filtered (f_flags fr) = false /\ notrace (f_flags fr) = false /\
+             do_enter c s a t =
+             {| fc := fc s; enabled := enabled s; cached := cached s; stack := fr :: stack s;
                 ridx := ridx s; out := out s; warned := false |} /\ hooked c s a = true
     end.
   Proof.
@@ -93,24 +118,28 @@ Section filt2.
     open_entry Hi. rewrite Hfc.
     cbn [fstate2 in_count out_count depth max_depth ftime fsize].
     destruct (o >? 0)%Z eqn:Eo.
-    - destruct Hsh as [-> | ->]; [split; reflexivity|]. split; [|reflexivity].
-      unfold entry_record.
-      cbn [fc enabled cached stack ridx out warned in_count out_count fsize f_flags norecord f_addr f_start f_depth
-           t_filter t_trace t_caller notrig orb]. reflexivity.
+    - destruct Hsh as [-> | ->]; [split; reflexivity|].
+      eexists. split; [|split; [|split; [|split; [|reflexivity]]]].
+      4:{ unfold entry_record.
+          cbn [fc enabled cached stack ridx out warned in_count out_count fsize f_flags norecord f_addr f_start f_depth
+               t_filter t_trace t_caller notrig orb]. reflexivity. }
+      all: cbn; repeat split; reflexivity.
     - destruct Hk as [Hk|(Hf & -> & ->)]; [lia|]. rewrite Hf.
       cbn [andb Z.eqb]. unfold with_fc.
-      destruct Hsh as [-> | ->]; [split; reflexivity|]. split; [|reflexivity].
-      unfold entry_record.
-      cbn [fc enabled cached stack ridx out warned in_count out_count fsize f_flags norecord f_addr f_start f_depth
-           t_filter t_trace t_caller ftrig2 orb]. rewrite Hf. reflexivity.
+      destruct Hsh as [-> | ->]; [split; reflexivity|].
+      eexists. split; [|split; [|split; [|split; [|reflexivity]]]].
+      4:{ unfold entry_record.
+          cbn [fc enabled cached stack ridx out warned in_count out_count fsize f_flags norecord f_addr f_start f_depth
+               t_filter t_trace t_caller ftrig2 orb]. rewrite Hf. reflexivity. }
+      all: cbn; repeat split; reflexivity.
   Qed.
 
   (* exit of a frame that may be recorded *)
-  Lemma leave_rec2 s w fl a t0 r i0 o0 dp0 mx0 tm0 t1 anc i o dp mx tm :
-    stack s = gf sh w fl a t0 r (fstate2 i0 o0 dp0 mx0 tm0) :: anc -> fc s = fstate2 i o dp mx tm ->
+  Lemma leave_rec2 s w fl tr cl a t0 r i0 o0 dp0 mx0 tm0 t1 anc i o dp mx tm :
+    stack s = gf3 sh w fl tr cl a t0 r (fstate2 i0 o0 dp0 mx0 tm0) :: anc -> fc s = fstate2 i o dp mx tm ->
     enabled s = true -> ridx s = r + 1 -> t0 <= t1 -> t1 < 18446744073709551616 -> 0 < t1 ->
     do_leave c s t1 =
-    if ((if tm =? NO_TIME then thr else tm) <? t1 - t0) || w then
+    if (((if tm =? NO_TIME then thr else tm) <? t1 - t0) && (negb hc || cl)) || w || tr then
       {| fc := fstate2 (if fl then i - 1 else i)%Z o dp0 mx0 tm0; enabled := true; cached := cached s;
          stack := if w then anc else fst (flush_anc anc); ridx := r;
          out := out s ++ (if w then [] else snd (flush_anc anc) ++ [E_ a t0 r]) ++ [X_ a t1 r];
@@ -120,7 +149,7 @@ Section filt2.
          stack := anc; ridx := r; out := out s; warned := warned s |}.
   Proof.
     intros Hst Hfc Hen Hr Ht Hlt Hpos. unfold do_leave. rewrite Hst.
-    set (fr := gf sh w fl a t0 r (fstate2 i0 o0 dp0 mx0 tm0)).
+    set (fr := gf3 sh w fl tr cl a t0 r (fstate2 i0 o0 dp0 mx0 tm0)).
     assert (Hg : f_ghost fr = false) by (subst fr; destruct w; reflexivity). rewrite Hg.
     assert (Hnr : norecord (f_flags fr) = false) by (subst fr; destruct w; reflexivity).
     assert (Hsame : match shp c with
@@ -141,53 +170,58 @@ Section filt2.
     assert (Hfl : f_flags (set_end fr t1) = f_flags fr) by reflexivity. rewrite Hfl, Hnr.
     assert (Hfi : filtered (f_flags fr) = fl) by (subst fr; destruct w; reflexivity).
     assert (Hnt : notrace (f_flags fr) = false) by (subst fr; destruct w; reflexivity).
-    assert (Hft : ftrace (f_flags fr) = false) by (subst fr; destruct w; reflexivity).
+    assert (Hft : ftrace (f_flags fr) = tr) by (subst fr; destruct w; reflexivity).
+    assert (Hcl : fcaller (f_flags fr) = cl) by (subst fr; destruct w; reflexivity).
     assert (Hw : written (f_flags fr) = w) by (subst fr; destruct w; reflexivity).
-    rewrite Hfi, Hnt, Hft, Hw.
+    rewrite Hfi, Hnt, Hft, Hcl, Hw.
     assert (Hsv : sv_depth (set_end fr t1) = dp0 /\ sv_max (set_end fr t1) = mx0
                   /\ sv_time (set_end fr t1) = tm0 /\ sv_size (set_end fr t1) = 0)
       by (subst fr; destruct w; repeat split; reflexivity).
     destruct Hsv as (-> & -> & -> & ->).
-    assert (Hr1 : (0 <? r + 1) = true) by lia. rewrite Hr1.
-    replace (r + 1 - 1) with r by lia.
-    unfold c. cbn [fcfg2 has_caller threshold negb andb orb].
-    rewrite andb_true_r, orb_false_r.
+    assert (Hr1 : (0 <? r + 1) = true) by (clear - r; lia). rewrite Hr1.
+    replace (r + 1 - 1) with r by (clear - r; lia).
+    unfold c. cbn [fcfg2 has_caller threshold negb].
     assert (Hfc' : {| in_count := if fl then (i - 1)%Z else i; out_count := if fl then o else o;
                       depth := dp0; max_depth := mx0; ftime := tm0; fsize := 0 |}
                    = fstate2 (if fl then (i - 1)%Z else i) o dp0 mx0 tm0) by (destruct fl; reflexivity).
     rewrite Hfc'.
-    destruct (((if tm =? NO_TIME then thr else tm) <? t1 - t0) || w) eqn:Dec; [|reflexivity].
+    destruct ((((if tm =? NO_TIME then thr else tm) <? t1 - t0) && (negb hc || cl)) || w || tr) eqn:Dec; [|reflexivity].
     unfold record_trace_data. rewrite Hfl, Hw.
-    assert (Hend : (f_end (set_end fr t1) =? 0) = false) by (cbn [set_end f_end]; lia).
+    assert (Hend : (f_end (set_end fr t1) =? 0) = false) by (clear -Hpos; cbn [set_end f_end]; lia).
     destruct w.
     - cbn [orb]. rewrite Hend. cbn [app]. unfold exit_rec, X_. subst fr.
-      cbn [set_end gf set_written gframe f_end f_depth f_addr]. reflexivity.
-    - unfold skip. rewrite Hfl. subst fr. cbn [gf gframe f_flags gfl norecord disabled orb].
+      cbn [set_end gf3 set_written gframe3 f_end f_depth f_addr]. reflexivity.
+    - unfold skip. rewrite Hfl. subst fr. cbn [gf3 gframe3 f_flags gfl3 norecord disabled orb].
       destruct (flush_anc anc) as [anc' pre] eqn:EF. cbn [fst snd].
-      assert (Hend' : (f_end (set_written (set_end (gframe sh false fl false a t0 r (fstate2 i0 o0 dp0 mx0 tm0)) t1)) =? 0) = false)
-        by (cbn [set_written set_end f_end]; lia).
-      cbn [gf] in *. rewrite Hend'.
-      unfold exit_rec, entry_rec, E_, X_. cbn [set_written set_end gframe f_end f_depth f_addr f_start].
+      assert (Hend' : (f_end (set_written (set_end (gframe3 sh false fl false tr cl a t0 r (fstate2 i0 o0 dp0 mx0 tm0)) t1)) =? 0) = false)
+        by (clear -Hpos; cbn [set_written set_end f_end]; lia).
+      cbn [gf3] in *. rewrite Hend'.
+      unfold exit_rec, entry_rec, E_, X_. cbn [set_written set_end gframe3 f_end f_depth f_addr f_start].
       rewrite <- !app_assoc. reflexivity.
   Qed.
 
   (* exit of a frame that is never recorded (notrace function, or a rejected call under cygprof) *)
-  Lemma leave_norec2 s fl ntr a t0 r i0 o0 dp0 mx0 tm0 t1 anc i o dp mx tm :
-    stack s = gframe sh true fl ntr a t0 r (fstate2 i0 o0 dp0 mx0 tm0) :: anc -> fc s = fstate2 i o dp mx tm ->
+  Lemma leave_norec2 s fr f0 t1 anc i o dp mx tm :
+    stack s = fr :: anc -> nrframe fr f0 -> fsize f0 = 0 -> fc s = fstate2 i o dp mx tm ->
     do_leave c s t1 =
-    {| fc := fstate2 (if fl then i - 1 else i)%Z (if fl then o else if ntr then o - 1 else o)%Z dp0 mx0 tm0;
+    {| fc := fstate2 (if filtered (f_flags fr) then i - 1 else i)%Z
+                     (if filtered (f_flags fr) then o else if notrace (f_flags fr) then o - 1 else o)%Z
+                     (depth f0) (max_depth f0) (ftime f0);
        enabled := enabled s; cached := cached s; stack := anc; ridx := ridx s; out := out s; warned := warned s |}.
   Proof.
-    intros Hst Hfc. unfold do_leave. rewrite Hst. cbn [gframe f_ghost f_flags gfl norecord].
-    assert (Hsame : forall fr', f_flags fr' = gfl sh true fl ntr ->
-                    sv_depth fr' = dp0 -> sv_max fr' = mx0 -> sv_time fr' = tm0 -> sv_size fr' = 0 ->
+    intros Hst (Hg & Hn & _ & H1 & H2 & H3 & H4) Hz Hfc. unfold do_leave. rewrite Hst, Hg.
+    assert (Hsame : forall fr', f_flags fr' = f_flags fr ->
+                    sv_depth fr' = depth f0 -> sv_max fr' = max_depth f0 -> sv_time fr' = ftime f0 -> sv_size fr' = 0 ->
                     exit_record c s fr' anc =
-                    {| fc := fstate2 (if fl then i - 1 else i)%Z (if fl then o else if ntr then o - 1 else o)%Z dp0 mx0 tm0;
+                    {| fc := fstate2 (if filtered (f_flags fr) then i - 1 else i)%Z
+                                     (if filtered (f_flags fr) then o else if notrace (f_flags fr) then o - 1 else o)%Z
+                                     (depth f0) (max_depth f0) (ftime f0);
                        enabled := enabled s; cached := cached s; stack := anc; ridx := ridx s; out := out s;
                        warned := warned s |}).
-    { intros fr' Hf H1 H2 H3 H4. unfold exit_record. rewrite Hf, Hfc, H1, H2, H3, H4.
-      cbn [gfl norecord filtered notrace fstate2 in_count out_count]. reflexivity. }
-    destruct (shp c); apply Hsame; reflexivity.
+    { intros fr' Hf G1 G2 G3 G4. unfold exit_record. rewrite Hf, Hn, Hfc, G1, G2, G3, G4.
+      cbn [fstate2 in_count out_count]. reflexivity. }
+    destruct (shp c); [apply Hsame; cbn [set_end f_flags sv_depth sv_max sv_time sv_size]; congruence|].
+    rewrite Hn. apply Hsame; congruence.
   Qed.
 
   (* ---------------------------------------------------------------- the refinement *)
@@ -211,9 +245,9 @@ Section filt2.
        budget2 x = lim2 x - dp /\ dp <= lim2 x /\ 0 < lim2 x /\
        cthr2 x = (if tm =? NO_TIME then thr else tm)).
 
-  Lemma sel2_dead x d k : dead2 x = true -> sel2 tg x d k = [].
+  Lemma sel2_dead x d k : dead2 x = true -> sel2 tg hc x d k = [].
   Proof. intro H. destruct k. cbn [sel2]. rewrite H. reflexivity. Qed.
-  Lemma sel2_dead_list x d ks : dead2 x = true -> flat_map (sel2 tg x d) ks = [].
+  Lemma sel2_dead_list x d ks : dead2 x = true -> flat_map (sel2 tg hc x d) ks = [].
   Proof. intro H. induction ks as [|k r IH]; cbn [flat_map]; [reflexivity|]. rewrite sel2_dead, IH; auto. Qed.
 
   Hypothesis Hgd : 0 < gd.
@@ -224,13 +258,13 @@ Section filt2.
     timed k -> forall s hk i o dp mx tm x d,
     fc s = fstate2 i o dp mx tm -> Rel2 i o dp mx tm x -> enabled s = true -> ridx s = d ->
     idx s + height k <= ms ->
-    exists s', exec c (flat k) (s, hk) = (s', hk) /\ afterg s s' d (sel2 tg x d k).
+    exists s', exec c (flat k) (s, hk) = (s', hk) /\ afterg s s' d (sel2 tg hc x d k).
 
   Lemma run_kids_sel2 (ks : list call) : Forall stmt2 ks ->
     all_timed ks -> forall s hk i o dp mx tm x d,
     fc s = fstate2 i o dp mx tm -> Rel2 i o dp mx tm x -> enabled s = true -> ridx s = d ->
     idx s + heights ks <= ms ->
-    exists s', exec c (flat_map flat ks) (s, hk) = (s', hk) /\ afterg s s' d (flat_map (sel2 tg x d) ks).
+    exists s', exec c (flat_map flat ks) (s, hk) = (s', hk) /\ afterg s s' d (flat_map (sel2 tg hc x d) ks).
   Proof.
     induction 1 as [|k r Hk _ IH]; intros HT s hk i o dp mx tm x d Hfc HR Hen Hr Hh.
     - exists s. split; [reflexivity|]. apply afterg_nil; assumption.
@@ -261,73 +295,76 @@ Section filt2.
     assert (SKIP : ((0 < o)%Z \/ (sf (tg a) = None /\ fm = true /\ i = 0%Z)) ->
                    exists s', dstep c (fold_left (dstep c) (flat_map flat kids)
                                          (do_enter c s a t0, hooked c s a :: hk)) (Leave t1) = (s', hk)
-                              /\ afterg s s' d (flat_map (sel2 tg x d) kids)).
+                              /\ afterg s s' d (flat_map (sel2 tg hc x d) kids)).
     { intros Hrej.
       pose proof (enter_skip s i o dp mx tm a t0 Hfc Hen Hi Ho0 Hrej) as ER.
-      destruct Hsh as [Es|Es]; rewrite Es in ER; destruct ER as [Een Hhk]; rewrite Een, Hhk.
-      - set (s1 := {| fc := fc s; enabled := enabled s; cached := cached s; stack := stack s; ridx := ridx s;
+      destruct Hsh as [Es|Es]; rewrite Es in ER.
+      - destruct ER as [Een Hhk]; rewrite Een, Hhk.
+        set (s1 := {| fc := fc s; enabled := enabled s; cached := cached s; stack := stack s; ridx := ridx s;
                       out := out s; warned := false |}).
         assert (Hix : idx s1 + heights kids <= ms) by (unfold idx in *; cbn [stack s1]; lia).
         destruct (RK s1 (false :: hk) i o dp mx tm x d Hfc HRel Hen Hr Hix) as (s2 & E2 & A2).
         unfold exec in E2. rewrite E2. cbn [dstep]. exists s2. split; [reflexivity|].
         destruct A2 as (F2 & En2 & C2 & R2 & S2 & O2). cbn [stack out cached fc s1] in *.
         unfold afterg. auto 10.
-      - set (fr := gframe CYG true false false a 0 (ridx s) (fstate2 i o dp mx tm)).
+      - destruct ER as (fr & NR & Ffl & Fnt & Een & Hhk). rewrite Een, Hhk.
         set (s1 := {| fc := fc s; enabled := enabled s; cached := cached s; stack := fr :: stack s;
                       ridx := ridx s; out := out s; warned := false |}).
         assert (Hix : idx s1 + heights kids <= ms) by (unfold idx in *; cbn [stack s1 length]; lia).
         destruct (RK s1 (true :: hk) i o dp mx tm x d Hfc HRel Hen Hr Hix) as (s2 & E2 & A2).
         unfold exec in E2. rewrite E2. cbn [dstep].
-        destruct (norec_on_top fr (stack s) _ s2 s1 d eq_refl eq_refl eq_refl A2) as [S2 O2].
+        assert (Wfr : written (f_flags fr) = false) by apply NR.
+        assert (Skfr : skip fr = true) by (unfold skip; destruct NR as (_ & -> & _); reflexivity).
+        destruct (norec_on_top fr (stack s) _ s2 s1 d Wfr Skfr eq_refl A2) as [S2 O2].
         destruct A2 as (F2 & En2 & C2 & R2 & _ & _). cbn [stack out cached fc s1] in *.
         assert (F2' : fc s2 = fstate2 i o dp mx tm) by congruence.
-        assert (S2' : stack s2 = gframe sh true false false a 0 (ridx s) (fstate2 i o dp mx tm) ::
-                                 (if is_nil (flat_map (sel2 tg x d) kids) then stack s else fst (flush_anc (stack s))))
-          by (rewrite Es; exact S2).
-        rewrite (leave_norec2 s2 false false a 0 (ridx s) i o dp mx tm t1 _ i o dp mx tm S2' F2').
+        rewrite (leave_norec2 s2 fr (fstate2 i o dp mx tm) t1 _ i o dp mx tm S2 NR eq_refl F2').
+        rewrite Ffl, Fnt. cbn [fstate2 depth max_depth ftime].
         eexists. split; [reflexivity|].
         unfold afterg. cbn [fc enabled cached ridx stack out]. rewrite Hfc.
         repeat split; try assumption; congruence. }
     (* an accepted entry that may be recorded *)
-    assert (ACC : forall (fl : bool) (i' : Z) (dpn mx' tm' : N) (x' : sctx2),
+    assert (ACC : forall (fl tr cl : bool) (i' : Z) (dpn mx' tm' : N) (x' : sctx2),
               do_enter c s a t0 =
               {| fc := fstate2 i' 0 dpn mx' tm'; enabled := true; cached := cached s;
-                 stack := gframe sh false fl false a t0 (ridx s) (fstate2 i o dp mx tm) :: stack s;
+                 stack := gframe3 sh false fl false tr cl a t0 (ridx s) (fstate2 i o dp mx tm) :: stack s;
                  ridx := ridx s + 1; out := out s; warned := false |} ->
               hooked c s a = true -> Rel2 i' 0 dpn mx' tm' x' -> i' = (if fl then i + 1 else i)%Z -> o = 0%Z ->
               exists s', dstep c (fold_left (dstep c) (flat_map flat kids)
                                     (do_enter c s a t0, hooked c s a :: hk)) (Leave t1) = (s', hk)
                          /\ afterg s s' d
-                              (let ks := flat_map (sel2 tg x' (d + 1)) kids in
-                               if ((if tm' =? NO_TIME then thr else tm') <? t1 - t0) || negb (is_nil ks)
+                              (let ks := flat_map (sel2 tg hc x' (d + 1)) kids in
+                               if (((if tm' =? NO_TIME then thr else tm') <? t1 - t0) && (negb hc || cl)) || tr || negb (is_nil ks)
                                then E_ a t0 d :: ks ++ [X_ a t1 d] else [])).
-    { intros fl i' dpn mx' tm' x' Een Hhk HR' Hi' Hoz. subst o. rewrite Een, Hhk.
+    { intros fl tr cl i' dpn mx' tm' x' Een Hhk HR' Hi' Hoz. subst o. rewrite Een, Hhk.
       set (s1 := {| fc := fstate2 i' 0 dpn mx' tm'; enabled := true; cached := cached s;
-                    stack := gframe sh false fl false a t0 (ridx s) (fstate2 i 0 dp mx tm) :: stack s;
+                    stack := gframe3 sh false fl false tr cl a t0 (ridx s) (fstate2 i 0 dp mx tm) :: stack s;
                     ridx := ridx s + 1; out := out s; warned := false |}).
       destruct (RK s1 (true :: hk) i' 0%Z dpn mx' tm' x' (d + 1)) as (s2 & E2 & A2); try reflexivity; try assumption.
       { subst s1. cbn [ridx]. lia. }
       { subst s1. unfold idx in *. cbn [stack length]. lia. }
       unfold exec in E2. rewrite E2. cbn [dstep].
       destruct A2 as (F2 & En2 & C2 & R2 & S2 & O2). subst s1. cbn [stack out cached fc] in *.
-      set (Rk := flat_map (sel2 tg x' (d + 1)) kids) in *.
-      change (gframe sh false fl false a t0 (ridx s) (fstate2 i 0 dp mx tm))
-        with (gf sh false fl a t0 (ridx s) (fstate2 i 0 dp mx tm)) in S2, O2.
-      rewrite flush_anc_gf in S2, O2. cbn [fst snd] in S2, O2.
-      assert (S2' : stack s2 = gf sh (negb (is_nil Rk)) fl a t0 (ridx s) (fstate2 i 0 dp mx tm) ::
+      set (Rk := flat_map (sel2 tg hc x' (d + 1)) kids) in *.
+      change (gframe3 sh false fl false tr cl a t0 (ridx s) (fstate2 i 0 dp mx tm))
+        with (gf3 sh false fl tr cl a t0 (ridx s) (fstate2 i 0 dp mx tm)) in S2, O2.
+      rewrite flush_anc_gf3 in S2, O2. cbn [fst snd] in S2, O2.
+      assert (S2' : stack s2 = gf3 sh (negb (is_nil Rk)) fl tr cl a t0 (ridx s) (fstate2 i 0 dp mx tm) ::
                                (if is_nil Rk then stack s else fst (flush_anc (stack s)))).
       { rewrite S2. destruct (is_nil Rk); reflexivity. }
-      rewrite (leave_rec2 s2 (negb (is_nil Rk)) fl a t0 (ridx s) i 0%Z dp mx tm t1 _ i' 0%Z dpn mx' tm' S2' F2 En2)
+      rewrite (leave_rec2 s2 (negb (is_nil Rk)) fl tr cl a t0 (ridx s) i 0%Z dp mx tm t1 _ i' 0%Z dpn mx' tm' S2' F2 En2)
         by (try assumption; lia).
       cbv zeta.
       assert (Hi'' : (if fl then (i' - 1)%Z else i') = i) by (destruct fl; lia).
       rewrite Hi''.
-      destruct (((if tm' =? NO_TIME then thr else tm') <? t1 - t0) || negb (is_nil Rk)) eqn:Dec.
+      assert (Hcomm : forall A W T : bool, (A || W || T) = (A || T || W)) by (intros [] [] []; reflexivity).
+      rewrite Hcomm.
+      destruct ((((if tm' =? NO_TIME then thr else tm') <? t1 - t0) && (negb hc || cl)) || tr || negb (is_nil Rk)) eqn:Dec.
       { eexists. split; [reflexivity|].
         unfold afterg. cbn [fc enabled cached ridx stack out is_nil]. rewrite Hfc.
         repeat split; try assumption; try congruence.
         - destruct (is_nil Rk); reflexivity.
-        - rewrite O2, Hr. unfold entry_rec, E_. cbn [gframe f_start f_depth f_addr].
+        - rewrite O2, Hr. unfold entry_rec, E_. cbn [gframe3 f_start f_depth f_addr].
           destruct (is_nil Rk) eqn:EN; cbn [negb].
           + destruct Rk; [|discriminate]. cbn [app]. rewrite <- !app_assoc. cbn [app]. reflexivity.
           + cbn [app]. rewrite <- !app_assoc. cbn [app]. reflexivity. }
@@ -359,8 +396,8 @@ Section filt2.
         assert (Hb' : (0 <? match sd g with Some n => n | None => lim2 x end) = true).
         { destruct (sd g) as [n|] eqn:Esd; [destruct (WFd n eq_refl); lia|lia]. }
         rewrite Hb'. cbv zeta.
-        match goal with |- context [flat_map (sel2 tg ?X (d + 1)) kids] => set (x' := X) end.
-        destruct (ACC true (i + 1)%Z (0 + 1) (match sd g with Some n => n | None => mx end)
+        match goal with |- context [flat_map (sel2 tg hc ?X (d + 1)) kids] => set (x' := X) end.
+        destruct (ACC true (str g) (sc g) (i + 1)%Z (0 + 1) (match sd g with Some n => n | None => mx end)
                       (match stm g with Some t => t | None => tm end) x' Een Hhk) as (s' & E & A);
           [|reflexivity|reflexivity|].
         { unfold Rel2, x'. cbn [dead2 scope2 budget2 lim2 cthr2]. rewrite orb_true_r.
@@ -386,7 +423,7 @@ Section filt2.
         rewrite Hacc in ER. destruct ER as [Een Hhk]. rewrite Een, Hhk.
         set (mx' := match sd g with Some n => n | None => mx end) in *.
         set (tm' := match stm g with Some t => t | None => tm end) in *.
-        set (fr := gframe sh true false true a t0 (ridx s) (fstate2 i 0 dp mx tm)) in *.
+        set (fr := gframe3 sh true false true (str g) (sc g) a t0 (ridx s) (fstate2 i 0 dp mx tm)) in *.
         set (s1 := {| fc := fstate2 i 1 (0 + 1) mx' tm'; enabled := true; cached := cached s;
                       stack := fr :: stack s; ridx := ridx s; out := out s; warned := false |}).
         destruct (RK s1 (true :: hk) i 1%Z (0 + 1) mx' tm'
@@ -398,7 +435,8 @@ Section filt2.
         rewrite sel2_dead_list in A2 by reflexivity.
         destruct A2 as (F2 & En2 & C2 & R2 & S2 & O2). subst s1. cbn [stack out cached fc is_nil app] in *.
         rewrite app_nil_r in O2.
-        rewrite (leave_norec2 s2 false true a t0 (ridx s) i 0 dp mx tm t1 _ i 1%Z (0 + 1) mx' tm' S2 F2).
+        rewrite (leave_norec2 s2 fr (fstate2 i 0 dp mx tm) t1 _ i 1%Z (0 + 1) mx' tm' S2 (nrframe_gframe3 _ _ _ _ _ _ _ _ _) eq_refl F2).
+        cbn [fr gframe3 f_flags gfl3 filtered notrace fstate2 depth max_depth ftime].
         eexists. split; [reflexivity|].
         unfold afterg. cbn [fc enabled cached ridx stack out is_nil app]. rewrite Hfc, app_nil_r.
         replace (1 - 1)%Z with 0%Z by lia.
@@ -426,8 +464,8 @@ Section filt2.
           cbn [is_some] in ER.
           assert (Hacc : (n <=? 0) = false) by lia. rewrite Hacc in ER. destruct ER as [Een Hhk].
           assert (Hb' : (0 <? n) = true) by lia. rewrite Hb'. cbv zeta.
-          match goal with |- context [flat_map (sel2 tg ?X (d + 1)) kids] => set (x' := X) end.
-          destruct (ACC false i (0 + 1) n (match stm g with Some t => t | None => tm end) x' Een Hhk) as (s' & E & A);
+          match goal with |- context [flat_map (sel2 tg hc ?X (d + 1)) kids] => set (x' := X) end.
+          destruct (ACC false (str g) (sc g) i (0 + 1) n (match stm g with Some t => t | None => tm end) x' Een Hhk) as (s' & E & A);
             [|reflexivity|reflexivity|].
           { unfold Rel2, x'. cbn [dead2 scope2 budget2 lim2 cthr2]. rewrite orb_false_r.
             split; [lia|]. split; [lia|]. split; [split; [discriminate|lia]|]. intros _.
@@ -439,7 +477,7 @@ Section filt2.
           -- (* beyond the depth limit *)
              assert (Hb' : (0 <? budget2 x) = false) by lia. rewrite Hb'.
              set (tm' := match stm g with Some t => t | None => tm end) in *.
-             match goal with |- context [flat_map (sel2 tg ?X d) kids] => set (x' := X) end.
+             match goal with |- context [flat_map (sel2 tg hc ?X d) kids] => set (x' := X) end.
              assert (HR' : Rel2 i 0 dp mx tm' x').
              { unfold Rel2, x'. cbn [dead2 scope2 budget2 lim2 cthr2].
                split; [lia|]. split; [lia|]. split; [split; [discriminate|lia]|]. intros _.
@@ -458,7 +496,7 @@ Section filt2.
                 destruct A2 as (F2 & En2 & C2 & R2 & S2 & O2). cbn [stack out cached fc s1] in *.
                 unfold afterg. rewrite Hfc, <- Htm. auto 10.
              ++ (* always-push shape: the frame restores the threshold at exit *)
-                set (fr := gframe CYG true false false a 0 (ridx s) (fstate2 i 0 dp mx tm)).
+                set (fr := gframe3 CYG true false false (str g) (sc g) a 0 (ridx s) (fstate2 i 0 dp mx tm)).
                 set (s1 := {| fc := fstate2 i 0 dp mx tm'; enabled := true; cached := cached s; stack := fr :: stack s;
                               ridx := ridx s; out := out s; warned := false |}).
                 assert (Hix : idx s1 + heights kids <= ms) by (unfold idx in *; cbn [stack s1 length]; lia).
@@ -466,18 +504,16 @@ Section filt2.
                 unfold exec in E2. rewrite E2. cbn [dstep].
                 destruct (norec_on_top fr (stack s) _ s2 s1 d eq_refl eq_refl eq_refl A2) as [S2 O2].
                 destruct A2 as (F2 & En2 & C2 & R2 & _ & _). cbn [stack out cached fc s1] in *.
-                assert (S2' : stack s2 = gframe sh true false false a 0 (ridx s) (fstate2 i 0 dp mx tm) ::
-                                         (if is_nil (flat_map (sel2 tg x' d) kids) then stack s else fst (flush_anc (stack s))))
-                  by (rewrite Es; exact S2).
-                rewrite (leave_norec2 s2 false false a 0 (ridx s) i 0 dp mx tm t1 _ i 0%Z dp mx tm' S2' F2).
+                rewrite (leave_norec2 s2 fr (fstate2 i 0 dp mx tm) t1 _ i 0%Z dp mx tm' S2 (nrframe_gframe3 _ _ _ _ _ _ _ _ _) eq_refl F2).
+                cbn [fr gframe3 f_flags gfl3 filtered notrace fstate2 depth max_depth ftime].
                 eexists. split; [reflexivity|].
                 unfold afterg. cbn [fc enabled cached ridx stack out]. rewrite Hfc.
                 repeat split; try assumption; congruence.
           -- (* within the limit *)
              destruct ER as [Een Hhk].
              assert (Hb' : (0 <? budget2 x) = true) by lia. rewrite Hb'. cbv zeta.
-             match goal with |- context [flat_map (sel2 tg ?X (d + 1)) kids] => set (x' := X) end.
-             destruct (ACC false i (dp + 1) mx (match stm g with Some t => t | None => tm end) x' Een Hhk) as (s' & E & A);
+             match goal with |- context [flat_map (sel2 tg hc ?X (d + 1)) kids] => set (x' := X) end.
+             destruct (ACC false (str g) (sc g) i (dp + 1) mx (match stm g with Some t => t | None => tm end) x' Een Hhk) as (s' & E & A);
                [|reflexivity|reflexivity|].
              { unfold Rel2, x'. cbn [dead2 scope2 budget2 lim2 cthr2]. rewrite orb_false_r.
                split; [lia|]. split; [lia|]. split; [split; [discriminate|lia]|]. intros _.
@@ -487,7 +523,7 @@ Section filt2.
   Qed.
 
   Theorem run_forest_sel2 : forall f, all_timed f -> heights f <= ms ->
-    out (fst (exec c (flat_forest f) (init, []))) = flat_map (sel2 tg (x02 fm gd thr) 0) f.
+    out (fst (exec c (flat_forest f) (init, []))) = flat_map (sel2 tg hc (x02 fm gd thr) 0) f.
   Proof.
     intros f HT Hh.
     assert (HF : Forall stmt2 f) by (apply Forall_forall; intros k0 _; apply run_call_sel2).
@@ -507,14 +543,14 @@ End filt2.
 
 (* non-vacuity of the hypotheses *)
 Definition tg_example : N -> strig :=
-  assoc notrig2 [(256, {| sf := Some true; sd := Some 2; stm := Some 50 |});
-                 (512, {| sf := Some false; sd := None; stm := None |});
-                 (768, {| sf := None; sd := Some 3; stm := Some 7 |})].
+  assoc notrig2 [(256, {| sf := Some true; sd := Some 2; stm := Some 50; str := false; sc := true |});
+                 (512, {| sf := Some false; sd := None; stm := None; str := false; sc := false |});
+                 (768, {| sf := None; sd := Some 3; stm := Some 7; str := true; sc := false |})].
 Lemma tg_example_ok : wf_tg tg_example /\ pg_guard tg_example.
 Proof.
   split; intro a; unfold tg_example; cbn [assoc].
-  - destruct (a =? 256); [|destruct (a =? 512); [|destruct (a =? 768)]]; cbn [sf sd stm notrig2];
+  - destruct (a =? 256); [|destruct (a =? 512); [|destruct (a =? 768)]]; cbn [sf sd stm str sc notrig2];
       (split; intros ? H; inversion H; subst; try split; try lia; discriminate).
-  - destruct (a =? 256); [|destruct (a =? 512); [|destruct (a =? 768)]]; cbn [sf sd stm notrig2];
+  - destruct (a =? 256); [|destruct (a =? 512); [|destruct (a =? 768)]]; cbn [sf sd stm str sc notrig2];
       intro H; try (left; discriminate); try (right; discriminate); congruence.
 Qed.
